@@ -22,6 +22,8 @@ RULE = (
     "Sync callables with coroutine-function or awaitable-returning conditions/captures must raise ValueError without using the "
     "awaitable as a truth value. Non-trivial = pair in which at least one contract was evaluated; distinct = (program shape, "
     "callable, truth vector, body script)."
+    ' Nested pairs: a public method that breaks the invariant temporarily and calls public members of the same obje'
+    'ct (also through super()) gives the same trace and outcome as def and as async def.'
 )
 ASSUMPTIONS = ["async callables are driven by a deterministic trampoline; concurrency is C12's business"]
 
